@@ -264,6 +264,8 @@ func c16Margins(c *Ctx, p *Prog) {
 	}
 	// width computations: RuneCount(cell.value) + X
 	n := 0
+	skippedSpans := map[int]map[int64]bool{}
+	spanF := p.Field(ttabRel, "textCell", "span")
 	eachInstr(fn, func(_ *ssa.BasicBlock, in ssa.Instruction) {
 		bo, ok := in.(*ssa.BinOp)
 		if !ok || bo.Op != token.ADD {
@@ -349,13 +351,86 @@ func c16Margins(c *Ctx, p *Prog) {
 				walk(v, 0)
 				return found
 			}
-			var dfs func(b *ssa.BasicBlock, onPath map[*ssa.BasicBlock]bool, sawValue, sawMargin bool, depth int)
-			dfs = func(b *ssa.BasicBlock, onPath map[*ssa.BasicBlock]bool, sawValue, sawMargin bool, depth int) {
+			// a skip decided by the cell's span alone is a division of labour between several width loops (single-column
+			// cells here, spanning cells there): which spans this site leaves out is recorded and the union over all
+			// sites must cover every span
+			type branch struct {
+				cond  ssa.Value
+				taken bool
+			}
+			spanOnly := func(v ssa.Value) (*ssa.BinOp, bool) {
+				bo2, ok := v.(*ssa.BinOp)
+				if !ok {
+					return nil, false
+				}
+				isSpan := func(x ssa.Value) bool {
+					if g, _ := loadOfField(x); g == spanF && spanF != nil {
+						return true
+					}
+					if fv, ok := x.(*ssa.Field); ok {
+						g, _ := fieldOfVal(fv)
+						return g == spanF && spanF != nil
+					}
+					return false
+				}
+				_, kx := constInt(bo2.X)
+				_, ky := constInt(bo2.Y)
+				return bo2, (isSpan(bo2.X) && ky) || (isSpan(bo2.Y) && kx)
+			}
+			evalSpan := func(bo2 *ssa.BinOp, s int64) bool {
+				a, b := s, s
+				if k, ok := constInt(bo2.X); ok {
+					a = k
+				}
+				if k, ok := constInt(bo2.Y); ok {
+					b = k
+				}
+				switch bo2.Op {
+				case token.EQL:
+					return a == b
+				case token.NEQ:
+					return a != b
+				case token.LSS:
+					return a < b
+				case token.LEQ:
+					return a <= b
+				case token.GTR:
+					return a > b
+				case token.GEQ:
+					return a >= b
+				}
+				return false
+			}
+			if skippedSpans[n] == nil {
+				skippedSpans[n] = map[int64]bool{}
+			}
+			var dfs func(b *ssa.BasicBlock, onPath map[*ssa.BasicBlock]bool, sawValue, sawMargin bool, path []branch, depth int)
+			dfs = func(b *ssa.BasicBlock, onPath map[*ssa.BasicBlock]bool, sawValue, sawMargin bool, path []branch, depth int) {
 				if skipped || depth > 24 || b == bo.Block() || onPath[b] {
 					return
 				}
 				if b == lp.Header {
-					if !(sawValue && sawMargin) {
+					allSpan := len(path) > 0
+					for _, br := range path {
+						if _, ok := spanOnly(br.cond); !ok {
+							allSpan = false
+						}
+					}
+					switch {
+					case allSpan:
+						for _, s := range []int64{1, 2, 3} {
+							feasible := true
+							for _, br := range path {
+								bo2, _ := spanOnly(br.cond)
+								if evalSpan(bo2, s) != br.taken {
+									feasible = false
+								}
+							}
+							if feasible {
+								skippedSpans[n][s] = true
+							}
+						}
+					case !(sawValue && sawMargin):
 						skipped = true
 					}
 					return
@@ -364,16 +439,21 @@ func c16Margins(c *Ctx, p *Prog) {
 					return
 				}
 				onPath[b] = true
-				if ifi, ok := b.Instrs[len(b.Instrs)-1].(*ssa.If); ok {
+				ifi, isIf := b.Instrs[len(b.Instrs)-1].(*ssa.If)
+				if isIf {
 					sawValue = sawValue || mentions(ifi.Cond, valueF)
 					sawMargin = sawMargin || mentions(ifi.Cond, marginF)
 				}
-				for _, s := range b.Succs {
-					dfs(s, onPath, sawValue, sawMargin, depth+1)
+				for si, s := range b.Succs {
+					p2 := path
+					if isIf {
+						p2 = append(append([]branch(nil), path...), branch{ifi.Cond, si == 0})
+					}
+					dfs(s, onPath, sawValue, sawMargin, p2, depth+1)
 				}
 				delete(onPath, b)
 			}
-			dfs(start, map[*ssa.BasicBlock]bool{}, false, false, 0)
+			dfs(start, map[*ssa.BasicBlock]bool{}, false, false, nil, 0)
 			c.Check(!skipped, R, fmt.Sprintf("Format:cell-width#%d:every-cell", n), p.pos(bo.Pos()), "computed on every iteration of the cell loop",
 				"some cells are skipped before their width is computed: a cell whose text is empty but whose left margin is visible (a rule column) is still printed by the emitter, so its column gets width 0, the margin overruns it and the following columns start at different offsets on lines with and without that cell")
 		}
@@ -381,6 +461,16 @@ func c16Margins(c *Ctx, p *Prog) {
 			"a cell's width is computed with something other than its column's entry in the margin table (e.g. the cell's own margin): the emitter pads with the column's margin, so a span narrower-margined than its start column overruns and later cells on that line shift right")
 	})
 	c.Floor(R, "cell width computations", n, 1)
+	// the width loops together measure cells of every span
+	for _, s := range []int64{1, 2, 3} {
+		covered := false
+		for i := 1; i <= n; i++ {
+			if !skippedSpans[i][s] {
+				covered = true
+			}
+		}
+		c.Check(covered, R, fmt.Sprintf("Format:cells-of-span-%d-measured", s), site, "some width loop measures cells of this span", fmt.Sprintf("no width computation is reached for cells that span %d column(s): every site skips them, so their text never widens a column", s))
+	}
 	// the emitter pads the margin with the same table
 	okEmit := false
 	eachInstr(fn, func(_ *ssa.BasicBlock, in ssa.Instruction) {
